@@ -166,9 +166,8 @@ func (c *ChunkComposer) RunLoop(reader io.Reader, cb OnCompleteMessage) error {
 		}
 
 		var neededSize uint32
-		if stream.header.MsgLen <= c.peerChunkSize {
-			neededSize = stream.header.MsgLen
-		} else {
+		if stream.header.MsgLen > stream.msg.Len() {
+			// 注意，chunk size可能在message的两个chunk之间被对端修改，所以始终按剩余大小计算
 			neededSize = stream.header.MsgLen - stream.msg.Len()
 			if neededSize > c.peerChunkSize {
 				neededSize = c.peerChunkSize
